@@ -89,6 +89,10 @@ def extra_cases(rng, quick):
             out.append(dict(kind="ideal", pi=8000.0, pf=8000.0 * ratio, nx=nx, times=rescorr.time_grid(gk, nt + 6, 0.5, rng), grid=gk))
             out.append(dict(kind="single", table=tb, table_kind="shipped", pi=8000.0, pf=8000.0 * ratio, nx=min(nx, 150),
                             times=rescorr.time_grid(gk, nt + 6, 0.5, rng), grid=gk))
+    # the ideal reservoir run far beyond depletion, down to profiles of 1e-200 (level 95 of 120 is the first below 1e-154; fixed 2026-10, 3794250: below 1e-154 the squares inside the
+    # residual test's Euclidean norms underflowed, the solver handed back its right-hand side and the profile froze - 313 stored levels that
+    # were not the update of the previous one)
+    out.append(dict(kind="ideal", pi=8000.0, pf=100.0, nx=40 if quick else 90, times=np.linspace(0, np.sqrt(3600.0), 120) ** 2, grid="quadratic"))      # backward Euler with steps up to 60: 1e-206 at the end
     # long constant-drawdown runs, until the profile has relaxed onto the frac-face value (a step must still be SOLVED there)
     for nx in (3, 12):
         out.append(dict(kind="single", table=tb, table_kind="shipped", pi=8000.0, pf=500.0, nx=nx, times=np.linspace(0, 160.0, 60), grid="uniform"))
